@@ -219,7 +219,8 @@ impl Interval {
             }
         } else {
             // The interval either contains both -1 and 0 or wraps around
-            if let Ok(start) = self.start.try_to_i128() {
+            // (`adjust_to_stride_and_remainder` ignores strides for widths above 8 bytes)
+            if let (Ok(start), true) = (self.start.try_to_i128(), width <= ByteSize::new(8)) {
                 let stride = 1 << self.stride.trailing_zeros();
                 let remainder = (start % stride + stride) % stride;
                 Interval {
